@@ -181,8 +181,9 @@ func (p *Parser) parseVP8X(buf []byte) error {
 	// Advance past VP8X chunk.
 	pos := ChunkHeaderSize + int(padded64)
 
-	// Default animation values.
-	p.features.LoopCount = 1
+	// Default animation values. The loop count is 0 until an ANIM chunk sets
+	// it, which is also what the demuxer and the simple-format path report.
+	p.features.LoopCount = 0
 	p.features.BGColor = 0xFFFFFFFF
 
 	// Parse remaining chunks.
